@@ -37,9 +37,11 @@ pub enum Kind {
     Unlink,
     BigGroup,
     RejectedMerge,
+    SaveReadSave,
+    JoinMerge,
 }
 
-const KINDS: [Kind; 26] = [
+const KINDS: [Kind; 28] = [
     Kind::Add,
     Kind::AddNext,
     Kind::NextOnly,
@@ -66,6 +68,8 @@ const KINDS: [Kind; 26] = [
     Kind::Unlink,
     Kind::BigGroup,
     Kind::RejectedMerge,
+    Kind::SaveReadSave,
+    Kind::JoinMerge,
 ];
 
 fn base_weights(prop: &str) -> Vec<(Kind, u32)> {
@@ -76,6 +80,7 @@ fn base_weights(prop: &str) -> Vec<(Kind, u32)> {
         "C01" => w.extend([
             (NextOnly, 1), (Clone, 2), (DropInst, 1), (Save, 2), (SaveLoadLinked, 1), (Load, 1), (Crash, 1),
             (Slice, 2), (Merge, 1), (Script, 1), (DrainClone, 1), (NewInst, 1), (Cycle, 1), (RejectedMerge, 1),
+            (SaveReadSave, 1),
         ]),
         "C02" => w.extend([
             (Clone, 1), (Save, 1), (Load, 1), (Crash, 1), (DrainClone, 2), (Cycle, 2), (NextOnly, 1),
@@ -93,13 +98,13 @@ fn base_weights(prop: &str) -> Vec<(Kind, u32)> {
         "C06" => w.extend([(Cycle, 30), (Save, 1), (Load, 1), (Crash, 1)]),
         "C07" => w.extend([
             (NextOnly, 1), (Clone, 2), (DropInst, 2), (Save, 3), (Load, 3), (Crash, 1), (Slice, 2), (Merge, 1),
-            (Script, 1), (Oob, 5), (Damage, 3), (NewInst, 1), (Cycle, 2), (DrainClone, 1),
+            (Script, 1), (Oob, 5), (Damage, 3), (NewInst, 1), (Cycle, 2), (DrainClone, 1), (JoinMerge, 1),
         ]),
         "C08" => w.extend([
             (Save, 4), (SaveLoadLinked, 4), (Load, 3), (Crash, 3), (Clone, 1), (DropInst, 1), (Merge, 1),
-            (DrainClone, 1), (Cycle, 2), (NextOnly, 1), (Unlink, 1),
+            (DrainClone, 1), (Cycle, 2), (NextOnly, 1), (Unlink, 1), (SaveReadSave, 2),
         ]),
-        "C09" => w.extend([(SaveCut, 4), (Save, 3), (Load, 2), (Crash, 2), (Cycle, 2), (Merge, 1), (Clone, 1)]),
+        "C09" => w.extend([(SaveCut, 4), (Save, 3), (Load, 2), (Crash, 2), (Cycle, 2), (Merge, 1), (Clone, 1), (SaveReadSave, 1)]),
         "C10" => w.extend([
             (Clone, 4), (CloneLinked, 5), (DropInst, 2), (Unlink, 1), (NextOnly, 2), (Merge, 1), (Cycle, 2),
             (Save, 1), (Load, 1), (DrainClone, 1),
@@ -129,6 +134,8 @@ enum Mode {
         restart_before: bool,
         restart_after: bool,
         reads: usize,
+        /// the right graph gets an unreachable extra vertex and no data: sodg rejects the merge
+        reject: bool,
     },
 }
 
@@ -181,6 +188,7 @@ pub fn pick_cfg(rng: &mut Rng, prop: &str, tier_thorough: bool) -> Cfg {
         hash_xor: 0,
         contract: None,
         adopt_alive: false,
+        judge: None,
     }
 }
 
@@ -188,7 +196,8 @@ impl Gen {
     pub fn new(seed: u64, prop: &str, thorough: bool, fault_free: bool) -> Self {
         let mut rng = Rng::new(seed);
         let mut cfg = pick_cfg(&mut rng, prop, thorough);
-        cfg.adopt_alive = prop == "C01";
+        cfg.adopt_alive = matches!(prop, "C01" | "C03" | "C05");
+        cfg.judge = Some(prop.to_string());
         // swarm: every kind keeps its base weight, is damped, or is switched off
         let base = base_weights(prop);
         let mut weights = vec![0_u32; KINDS.len()];
@@ -231,6 +240,9 @@ impl Gen {
             PLabel::S("abcdefgh".into()),
             PLabel::S("xy".into()),
             PLabel::A(usize::MAX),
+            PLabel::S("a x".into()),
+            PLabel::S("a y".into()),
+            PLabel::S("a".into()),
         ];
         let mut alphabet: Vec<PLabel> = pool.to_vec();
         rng.shuffle(&mut alphabet);
@@ -627,6 +639,7 @@ impl Gen {
                     restart_before: self.faults_enabled && self.rng.chance(1, 4),
                     restart_after: self.faults_enabled && self.rng.chance(1, 4),
                     reads: self.rng.range(0, 6),
+                    reject: self.rng.chance(1, 6),
                 };
                 Some(Step::Empty { i: free[0] })
             }
@@ -711,6 +724,61 @@ impl Gen {
                 self.queue.push_back(Step::Oob { i: x, call: Oob::MergeNonTree(y, Id::L(0), Id::L(0)) });
                 self.queue.push_back(Step::Drop { i: x });
                 self.queue.push_back(Step::Drop { i: y });
+                Some(Step::Empty { i: x })
+            }
+            Kind::SaveReadSave => {
+                // a generation in which nothing but reads happens: save, read, save to the same
+                // path, reload in lockstep
+                if inst.age == 0 || m.adoptive || !view.followers(i).is_empty() {
+                    return None;
+                }
+                let dst = view.free_slot()?;
+                let path = self.rng.below(PATHS);
+                let mut unread = m.unread_ids();
+                self.rng.shuffle(&mut unread);
+                let reads = self.rng.range(1, 3).min(unread.len().max(1));
+                for k in 0..reads {
+                    let v = if k < unread.len() { unread[k] } else { self.pick_present(m)? };
+                    self.queue.push_back(Step::Data { i, v: view.name(v) });
+                }
+                self.queue.push_back(Step::Save { i, path, fault: WFault::None });
+                self.queue.push_back(Step::Load { path, dst, fault: RFault::None, link: Some(i) });
+                Some(Step::Save { i, path, fault: WFault::None })
+            }
+            Kind::JoinMerge => {
+                // out of contract on purpose (C07): a right graph in which one vertex is reached by
+                // two paths that land on two different left vertices, so merge() joins them; then the
+                // joined graph is written to, read until a group dies, copied and saved
+                let free: Vec<usize> = (0..view.insts.len()).filter(|k| view.insts[*k].is_none()).collect();
+                if free.len() < 2 || view.cfg.cap < 7 || view.cfg.n < 2 {
+                    return None;
+                }
+                let (x, y) = (free[0], free[1]);
+                let (a, b, c, d, e) = (PLabel::A(0), PLabel::A(1), PLabel::A(2), PLabel::A(3), PLabel::A(4));
+                let heap = self.rng.chance(1, 2);
+                let q = &mut self.queue;
+                for v in [0, 1, 2] {
+                    q.push_back(Step::Add { i: x, v: Id::L(v) });
+                }
+                q.push_back(Step::Bind { i: x, a: Id::L(0), b: Id::L(1), l: a.clone() });
+                q.push_back(Step::Bind { i: x, a: Id::L(1), b: Id::L(2), l: b });
+                q.push_back(Step::Put { i: x, v: Id::L(2), d: if heap { vec![7; 12] } else { vec![7; 3] } });
+                q.push_back(Step::Empty { i: y });
+                for v in [0, 4, 3, 5] {
+                    q.push_back(Step::Add { i: y, v: Id::L(v) });
+                }
+                q.push_back(Step::Bind { i: y, a: Id::L(0), b: Id::L(4), l: c });
+                q.push_back(Step::Bind { i: y, a: Id::L(0), b: Id::L(3), l: a });
+                q.push_back(Step::Bind { i: y, a: Id::L(4), b: Id::L(3), l: d });
+                q.push_back(Step::Bind { i: y, a: Id::L(3), b: Id::L(5), l: e });
+                q.push_back(Step::Oob { i: x, call: Oob::MergeNonTree(y, Id::L(0), Id::L(0)) });
+                q.push_back(Step::Put { i: x, v: Id::L(1), d: vec![9; 10] });
+                q.push_back(Step::Data { i: x, v: Id::L(1) });
+                q.push_back(Step::Data { i: x, v: Id::L(2) });
+                q.push_back(Step::Drain { i: x, on_clone: false, order: 1 });
+                q.push_back(Step::Save { i: x, path: 0, fault: WFault::None });
+                q.push_back(Step::Drop { i: x });
+                q.push_back(Step::Drop { i: y });
                 Some(Step::Empty { i: x })
             }
             Kind::Cycle => self.cycle(view, i),
@@ -954,13 +1022,13 @@ impl Gen {
     }
 
     fn merge_ep_step(&mut self, view: &View) -> Option<Step> {
-        let Mode::MergeEp { g, h, phase, grow_g, grow_h, prehistory, restart_before, restart_after, reads } =
+        let Mode::MergeEp { g, h, phase, grow_g, grow_h, prehistory, restart_before, restart_after, reads, reject } =
             self.mode.clone()
         else {
             return None;
         };
         let set = |s: &mut Self, phase: u8, grow_g: usize, grow_h: usize, prehistory: bool, reads: usize| {
-            s.mode = Mode::MergeEp { g, h, phase, grow_g, grow_h, prehistory, restart_before, restart_after, reads };
+            s.mode = Mode::MergeEp { g, h, phase, grow_g, grow_h, prehistory, restart_before, restart_after, reads, reject };
         };
         let abort = |s: &mut Self| {
             s.mode = Mode::Free;
@@ -1006,7 +1074,7 @@ impl Gen {
                     return None;
                 }
                 set(self, 1, 0, grow_h.saturating_sub(1), false, reads);
-                self.grow(view, h, true)
+                self.grow(view, h, !reject)
             }
             2 => {
                 // merge right after a recovery: save g and h, die, reload both
@@ -1022,6 +1090,15 @@ impl Gen {
                 let Some(right) = hi.m.tree_root() else { return abort(self) };
                 if gi.m.tree_root().is_none() {
                     return abort(self);
+                }
+                if reject && hi.m.present.values().all(|v| v.data.is_none()) {
+                    // one more present vertex that `right` does not reach
+                    if let Some(extra) = self.pick_absent(&hi.m) {
+                        let left = *self.rng.pick(&gi.m.present.keys().copied().collect::<Vec<_>>());
+                        set(self, 5, 0, 0, false, reads);
+                        self.queue.push_back(Step::Merge { dst: g, src: h, left: view.name(left), right: view.name(right) });
+                        return Some(Step::Add { i: h, v: Id::L(extra) });
+                    }
                 }
                 // choose `left` so that the result fits, if any choice does
                 let mut lefts: Vec<usize> = gi.m.present.keys().copied().collect();
